@@ -179,6 +179,16 @@ class Interp:
                     return int(a) - int(b)
                 if isinstance(n.op, ast.Add):
                     return int(a) + int(b)
+            # message formatting with literal pieces
+            if isinstance(a, str) and isinstance(n.op, ast.Mod) and \
+                    isinstance(b, (str, int)) and not isinstance(b, (bool, Opaque)):
+                return a % b
+            if isinstance(a, str) and isinstance(n.op, ast.Mod) and isinstance(b, tuple) \
+                    and all(isinstance(x, (str, int)) and not isinstance(x, Opaque)
+                            for x in b):
+                return a % b
+            if isinstance(a, str) and isinstance(b, str) and isinstance(n.op, ast.Add):
+                return a + b
             raise AnalysisError('unsupported arithmetic `%s`' % norm_src(n))
         if isinstance(n, ast.Subscript):
             base = self.ev(n.value, env)
